@@ -19,6 +19,7 @@
 package main
 
 import (
+	"bytes"
 	"encoding/json"
 	"flag"
 	"fmt"
@@ -51,7 +52,7 @@ var (
 const (
 	watchdog      = 10 * time.Second
 	lateLimit     = 250 * time.Millisecond
-	porcTimeout   = 60 * time.Second
+	porcTimeout   = 10 * time.Second
 	maxShortOps   = 90
 	stuckRetries  = 12
 	replayReruns  = 400
@@ -189,6 +190,9 @@ func judge(c *collector, h *history, countIt bool) string {
 // oneHistory runs the workload for p (with the stuck-run protocol) and judges it.
 func oneHistory(c *collector, p params) string {
 	h, stuck, late := runOnce(p, watchdog)
+	if h != nil && h.Panic != "" {
+		return judge(c, h, false)
+	}
 	if stuck != "" {
 		c.count("stuck-runs", 1)
 		if late > lateLimit {
@@ -410,20 +414,22 @@ func main() {
 	}
 
 	// (0) sequential exhaustive part
+	t0 := time.Now()
 	seqExhaustive()
 	run.Exhaustive(true)
+	fmt.Fprintf(os.Stderr, "sequential part: %.1fs\n", time.Since(t0).Seconds())
 
 	// (1)-(4) concurrent histories in lanes
-	n := run.Pick(4000, 320000)
+	n := run.Pick(3000, 300000)
 	if *flagN > 0 {
 		n = *flagN
 	}
-	lanes := runtime.NumCPU() / 3
+	lanes := runtime.NumCPU() / 2
 	if lanes < 2 {
 		lanes = 2
 	}
-	if lanes > 6 {
-		lanes = 6
+	if lanes > 8 {
+		lanes = 8
 	}
 	tmp, err := os.MkdirTemp("", "c16lanes")
 	if err != nil {
@@ -431,21 +437,23 @@ func main() {
 	}
 	defer os.RemoveAll(tmp)
 	type child struct {
-		cmd *exec.Cmd
-		out string
+		cmd  *exec.Cmd
+		out  string
+		errb *bytes.Buffer
 	}
 	var kids []child
 	for l := 0; l < lanes; l++ {
 		out := filepath.Join(tmp, fmt.Sprintf("lane%d.json", l))
 		cmd := exec.Command(os.Args[0], "-tier", run.Tier, "-seed", fmt.Sprint(run.Seed), "-root", run.Root,
 			"-lane", fmt.Sprint(l), "-lanes", fmt.Sprint(lanes), "-laneout", out, "-histories", fmt.Sprint(n))
+		errb := &bytes.Buffer{}
 		cmd.Stdout = os.Stdout
-		cmd.Stderr = os.Stderr
+		cmd.Stderr = errb
 		cmd.Env = append(os.Environ(), "GORACE=halt_on_error=0 history_size=3 log_path="+racePrefix)
 		if err := cmd.Start(); err != nil {
 			run.Fatal("cannot start lane %d: %v", l, err)
 		}
-		kids = append(kids, child{cmd, out})
+		kids = append(kids, child{cmd, out, errb})
 	}
 	inter := map[uint64]struct{}{}
 	evals := seqEvals.Load()
@@ -453,13 +461,18 @@ func main() {
 		err := k.cmd.Wait()
 		b, rerr := os.ReadFile(k.out)
 		if rerr != nil {
-			// the lane died: a fatal error / panic; leave the classification to the driver
-			fmt.Printf("lane %d ended without a result: %v\n", l, err)
-			if ee, ok := err.(*exec.ExitError); ok && ee.ExitCode() > 2 {
-				os.Exit(ee.ExitCode())
+			// the lane died: a panic / fatal error on a goroutine the harness cannot guard (the
+			// processor's own consumer goroutine)
+			site, msg := deathSite(k.errb.String())
+			fmt.Printf("lane %d ended without a result: %v\n%s\n", l, err, k.errb.String())
+			if strings.HasPrefix(site, "lib:") {
+				run.Violation("process-death/"+strings.TrimPrefix(site, "lib:"), "the process dies inside the library: "+msg,
+					map[string]any{"kind": "race", "report": tail(k.errb.String(), 6000)})
+				continue
 			}
 			run.Fatal("lane %d ended without a result: %v", l, err)
 		}
+		os.Stderr.Write(k.errb.Bytes())
 		var res laneResult
 		if err := json.Unmarshal(b, &res); err != nil {
 			run.Fatal("lane %d: bad result: %v", l, err)
@@ -497,7 +510,7 @@ func replay(racePrefix string) {
 	case "sequential":
 		var w seqWitness
 		_ = run.LoadReplay(&w)
-		runSeq(w.Cap, []byte(w.Ops))
+		runSeq(newPuller(), w.Cap, []byte(w.Ops))
 		run.Finish(1, "replay of a sequential word")
 	case "race":
 		// re-run the concurrent quick workload in this process and look at the race log again
@@ -542,4 +555,52 @@ func replay(racePrefix string) {
 		raceLogs(racePrefix, wantKey)
 		run.Finish(int64(n+1), "replay: stored history re-checked offline + workload re-run with the same parameters")
 	}
+}
+
+func tail(s string, n int) string {
+	if len(s) > n {
+		return s[len(s)-n:]
+	}
+	return s
+}
+
+// deathSite classifies the output of a process that died with a panic / fatal error: "lib:<func>"
+// if the innermost non-runtime frame of the panicking goroutine is gortsplib code.
+func deathSite(out string) (site, msg string) {
+	i := strings.Index(out, "\npanic: ")
+	if j := strings.Index(out, "\nfatal error: "); j >= 0 && (i < 0 || j < i) {
+		i = j
+	}
+	if i < 0 {
+		if strings.HasPrefix(out, "panic: ") || strings.HasPrefix(out, "fatal error: ") {
+			i = -1
+		} else {
+			return "", ""
+		}
+	}
+	rest := out[i+1:]
+	msg, _, _ = strings.Cut(rest, "\n")
+	g := strings.Index(rest, "\ngoroutine ")
+	if g < 0 {
+		return "", msg
+	}
+	for _, ln := range strings.Split(rest[g+1:], "\n")[1:] {
+		if ln == "" {
+			break
+		}
+		if strings.HasPrefix(ln, "\t") || strings.HasPrefix(ln, "panic(") || strings.HasPrefix(ln, "runtime.") ||
+			strings.HasPrefix(ln, "sync.") || strings.HasPrefix(ln, "internal/") {
+			continue
+		}
+		if strings.HasPrefix(ln, libPrefix) {
+			f := ln
+			if k := strings.LastIndex(f, "("); k > 0 {
+				f = f[:k]
+			}
+			f = strings.TrimPrefix(strings.TrimPrefix(f, libPrefix+"/"), libPrefix+".")
+			return "lib:" + f, msg
+		}
+		return "harness:" + ln, msg
+	}
+	return "", msg
 }
